@@ -180,3 +180,9 @@ let run_cli (args : (string * string) list) : string =
       add "cli_eq" (if ints mc = comp && int_of_nat mk = k then "ok" else fail ("model:" ^ string_of_ints (ints mc)))
   end;
   Buffer.contents res
+
+(* "sccbig": component arrays far above the minimum task length of the parallel loops, whose
+   verdict was computed by the harness itself with linear scans - an unproved probe that is
+   only passed through *)
+let run_big (args : (string * string) list) : string =
+  " big=" ^ (Conv.get args "verdict")
